@@ -832,9 +832,11 @@ def reference_compile(parent_chain, op, watch_library=False):
     env = Env('ref', allow_nest=False, watch_new=False)
     if watch_library:
         mon.watch(mon.library_codes())
+        mon.watch_module_bodies(True)
         try:
             return reference_compile(parent_chain, op)
         finally:
+            mon.watch_module_bodies(False)
             mon.unwatch(mon.library_codes())
     with isolated_registry():
         try:
